@@ -68,6 +68,7 @@ type generation struct {
 	ifn     string
 	gen     int
 	dialSeq int
+	mac     string
 	t0      int64 // dial.exit
 	endSeq  int   // first event after which the generation is torn down (0 = never)
 	tEnd    int64
@@ -128,7 +129,7 @@ func analyse(ev []verifsim.Event) *history {
 			endGen(e.Node, e.If, e.Seq, e.T)
 		case "dial.exit":
 			if e.Err == "" {
-				g := &generation{node: e.Node, ifn: e.If, gen: e.Gen, dialSeq: e.Seq, t0: e.T}
+				g := &generation{node: e.Node, ifn: e.If, gen: e.Gen, dialSeq: e.Seq, t0: e.T, mac: e.S}
 				h.gens = append(h.gens, g)
 				h.byKey[genKey(e.Node, e.If, e.Gen)] = g
 				cur[fmt.Sprintf("%d|%s", e.Node, e.If)] = g
